@@ -10,6 +10,12 @@ def run(tier, seed):
     B = vlib.build('plain')
     drv = daemon.build_driver(B)
     rnd = random.Random(seed)
+    # the connection table: the repaired slot search holds, the search as found is told apart (33rd connection takes the slot of the first)
+    ct = vlib.model_check('ConnTable.tla', 'ConnTableE1.cfg', wd, workers=4)
+    if not ct['ok']:
+        raise vlib.Broken('ConnTable: the slot search does not keep connections apart:\n' + ct['out'][-2500:])
+    if vlib.model_check('ConnTable.tla', 'ConnTableE1_asfound.cfg', wd, workers=1)['ok']:
+        raise vlib.Broken('ConnTable: the as-found slot search is not told apart from the repaired one (the model lost its bite)')
     e1 = vlib.model_check('InjectE1.tla', 'InjectE1.cfg', wd, workers=8)
     if not e1['ok']:
         raise vlib.Broken('InjectE1: the credential decision model does not match the map contract:\n' + e1['out'][-2500:])
@@ -24,6 +30,8 @@ def run(tier, seed):
         else:
             pool = rnd.sample(plain, 3) + (list(rnd.choice(col)[1][:2]) if col else [])
         peers = rnd.choice([(1000, 1001), (1000, 1001, 1002, 0, 4242), tuple(2000 + i for i in range(8)) + (1000,)])
+        if k % 50 == 49:
+            scripts.append(daemon.table_script(rnd)); continue
         if k % 8 == 7:
             # long histories of few users in which every other request is a listing, the checkpoint timer in between
             scripts.append(daemon.map_script(rnd, pool, peers=rnd.choice([(1000, 1001), (1000, 1001, 1002), (1000, 2001, 2002, 2035)]), nreq=rnd.choice([25, 40, 60]), listy=True))
@@ -45,9 +53,9 @@ def run(tier, seed):
     nitems = sum(len(e.get('items', [])) for r in recs for e in r['ev'] if e['e'] == 'Req')
     cov = {'states': e1['states'], 'transitions': e1['transitions'], 'traces_validated_against_impl': v['n'],
            'samples': [{'events': [e for e in recs[0]['ev'] if e['e'] != 'State']}], 'evaluations': v['n'], 'distinct_nontrivial': len(set('\n'.join(c) for c, _ in scripts)),
-           'rule': 'one case = one history of requests against the real cmd_ical()/cmd_http() with chosen peer credentials: adds (1..3 events per request, optional X-ECHS-OWNER by uid or name, own/other/unknown), cancels, GET /sched, /queue (UIDs and the DTSTART each task is shown with) and /u/<other>/...; one history in eight is long (25..60 requests, half of them listings, the checkpoint timer in between); peers incl. root, a uid without passwd entry and up to 9 users; UID strings chosen with the real hash so that groups of 2..4 share 4..16 low bits of their table key',
+           'rule': 'one case = one history of requests against the real cmd_ical()/cmd_http() with chosen peer credentials: adds (1..3 events per request, optional X-ECHS-OWNER by uid or name, own/other/unknown), cancels, GET /sched, /queue (UIDs and the DTSTART each task is shown with) and /u/<other>/...; every request occupies a slot of the connection table of the daemon (make_conn/free_conn), in one history in eight other peers hold 30..63 connections open meanwhile, one in fifty is connections coming and going only (up to and beyond 64); one history in eight is long (25..60 requests, half of them listings, the checkpoint timer in between); peers incl. root, a uid without passwd entry and up to 9 users; UID strings chosen with the real hash so that groups of 2..4 share 4..16 low bits of their table key',
            'requests': nreq, 'request_items': nitems, 'listings': nhttp, 'colliding_uid_groups': len(col), 'mismatching_runs': v['nbad'],
-           'e1': 'InjectE1: credential case analysis of _inject_task1/_eject_task1 equals the map contract for 4 peers x 4 owner fields x every reachable 2-UID map (histories <= 3)', 'exhaustive': False}
+           'e1_conn': 'ConnTable.tla (2 x 2 slots, 7 connections): SlotsSound, NoTakeover, RefusedOnlyWhenFull hold for the repaired search and fail for the as-found one', 'e1': 'InjectE1: credential case analysis of _inject_task1/_eject_task1 equals the map contract for 4 peers x 4 owner fields x every reachable 2-UID map (histories <= 3)', 'exhaustive': False}
     return vlib.finish(PID, tier, seed, 'model_checking', cov, t0, unlisted, listed,
                        ['TLC/SANY, Json/IOUtils', 'getpwuid/getpwnam interposed with a fixed user table (root, alice, bob, carol, u2000..u2063); daemon runs as root', 'the administrator\'s (uid 0) own listings are outside the property and not generated',
                         'table keys sharing more than 16 low bits are not generated (the table would grow beyond 2^17 entries)'])
